@@ -890,10 +890,27 @@ def _r08d(chk, repo) -> None:
                 name = t.value.id
                 # the context dict: a parameter or local that is the live context (by the annotation of the parameter
                 # or by being the value passed on as the render context); identified here by what it is filled with
-                v = st.value
-                stand_in = (
-                    (isinstance(v, ast.Call) and any(w in norm(v.func) for w in ("UndefinedRecorder", "DummyUndefined")))
-                    or (isinstance(v, ast.Subscript) and norm(v.value).isupper())  # e.g. DBT_BUILTINS[name]
+                # the stored value, also when it was chosen into a local first (``x = A(..) if c else B(..)``)
+                # or is the value variable of a loop over ``<TABLE>.items()``
+                vals = [st.value]
+                if isinstance(st.value, ast.Name):
+                    from ..cfg import origins as _origins
+
+                    cfg = cfg or cfg_of(f)
+                    vals = []
+                    for o in _origins(cfg, st.value, st):
+                        if o.kind == "expr" and not o.path and isinstance(o.expr, ast.AST):
+                            vals.append(o.expr)
+                        elif o.kind == "for" and tuple(o.path) == (1,) and isinstance(o.expr, ast.Call) and last_attr(o.expr) == "items" and isinstance(o.expr.func, ast.Attribute) and not o.expr.args:
+                            vals.append(ast.Subscript(value=o.expr.func.value, slice=ast.Name(id="_", ctx=ast.Load()), ctx=ast.Load()))
+                        else:
+                            vals.append(None)
+                stand_in = bool(vals) and any(
+                    v is not None and (
+                        (isinstance(v, ast.Call) and any(w in norm(v.func) for w in ("UndefinedRecorder", "DummyUndefined")))
+                        or (isinstance(v, ast.Subscript) and norm(v.value).isupper())  # e.g. DBT_BUILTINS[name]
+                    )
+                    for v in vals
                 )
                 if not stand_in:
                     continue
@@ -948,6 +965,9 @@ def _r08d(chk, repo) -> None:
                 )
             elif isinstance(node, (ast.Subscript, ast.For)) and any(isinstance(x, ast.Name) and x.id in tables for x in ([node.value] if isinstance(node, ast.Subscript) else [node.iter])):
                 n_uses += 1
+            elif isinstance(node, ast.For) and isinstance(node.iter, ast.Call) and last_attr(node.iter) in ("items", "keys", "values") and isinstance(node.iter.func, ast.Attribute) \
+                    and isinstance(node.iter.func.value, ast.Name) and node.iter.func.value.id in tables:
+                n_uses += 1  # for k, v in TABLE.items(): ...
     chk.count("R08d.stand_in_table_uses", n_uses)
     chk.count("R08d.bulk_merges_that_overwrite", n_bulk)
     chk.require(n_uses > 0 or not tables, "R08d", None, "the stand-in table is never applied (anchor changed?)", detail="stand-in table is applied", construct=JINJA)
@@ -996,7 +1016,130 @@ from ..selftest import Variant  # noqa: E402
 
 DBT = "plugins/sqlfluff-templater-dbt/sqlfluff_templater_dbt/templater.py"
 
+_FAST_OLD = (
+    "        if (\n"
+    "            in_str\n"
+    "            and not re.search(r\"\\{[{%#]\", in_str)\n"
+    "            and not self._get_macros_path(config, \"load_macros_from_path\")\n"
+    "            and not config.get_section((self.templater_selector, self.name, \"macros\"))\n"
+    "            and not config.get(\"library_path\")\n"
+    "            and not config.get_section(\n"
+    "                (self.templater_selector, self.name, \"library_path\")\n"
+    "            )\n"
+    "        ):\n"
+    "            return TemplatedFile(in_str, fname=fname), []\n"
+)
+_DBT_OLD = (
+    "                for name in DBT_BUILTINS:\n"
+    "                    # Only apply if it hasn't already been set at this stage.\n"
+    "                    if name not in live_context:\n"
+    "                        live_context[name] = DBT_BUILTINS[name]\n"
+)
+_UNDEF_OLD = (
+    "            if val not in live_context:\n"
+    "                if ignore_templating:\n"
+    "                    live_context[val] = DummyUndefined.create(val)\n"
+    "                else:\n"
+    "                    live_context[val] = UndefinedRecorder(val, undefined_variables)\n"
+)
+
 VARIANTS = [
+    # behaviour-preserving refactors: must stay quiet
+    Variant(
+        "quiet-fast-path-nested-ifs-and-loader-local", JINJA, _FAST_OLD,
+        "        if in_str and not re.search(r\"\\{[{%#]\", in_str):\n"
+        "            loaders_configured = (\n"
+        "                self._get_macros_path(config, \"load_macros_from_path\")\n"
+        "                or config.get_section((self.templater_selector, self.name, \"macros\"))\n"
+        "                or config.get(\"library_path\")\n"
+        "                or config.get_section(\n"
+        "                    (self.templater_selector, self.name, \"library_path\")\n"
+        "                )\n"
+        "            )\n"
+        "            if not loaders_configured:\n"
+        "                return TemplatedFile(in_str, fname=fname), []\n",
+        "QUIET", None, "conjunction split into nested ifs, the loader switches or-ed into a local",
+    ),
+    Variant(
+        "quiet-fast-path-result-through-local-by-keyword", JINJA,
+        "        ):\n            return TemplatedFile(in_str, fname=fname), []\n\n        env, live_context, render_func = self.construct_render_func(\n",
+        "        ):\n            plain_file = TemplatedFile(source_str=in_str, fname=fname)\n            return plain_file, []\n\n        env, live_context, render_func = self.construct_render_func(\n",
+        "QUIET", None, "the unrendered file through a local, source by keyword",
+    ),
+    Variant(
+        "quiet-fast-path-compiled-pattern", JINJA,
+        "        if (\n            in_str\n            and not re.search(r\"\\{[{%#]\", in_str)\n",
+        "        markup = re.compile(r\"\\{[{%#]\")\n        if (\n            in_str\n            and not markup.search(in_str)\n",
+        "QUIET", None, "pattern compiled into a local first",
+    ),
+    Variant(
+        "quiet-undefined-stand-in-through-local", JINJA, _UNDEF_OLD,
+        "            if val not in live_context:\n"
+        "                stand_in = (\n"
+        "                    DummyUndefined.create(val)\n"
+        "                    if ignore_templating\n"
+        "                    else UndefinedRecorder(val, undefined_variables)\n"
+        "                )\n"
+        "                live_context[val] = stand_in\n",
+        "QUIET", None, "the two stores merged: the stand-in is chosen into a local, one store",
+    ),
+    Variant(
+        "quiet-dbt-builtins-items-loop", JINJA, _DBT_OLD,
+        "                for name, builtin in DBT_BUILTINS.items():\n"
+        "                    # Only apply if it hasn't already been set at this stage.\n"
+        "                    if name not in live_context:\n"
+        "                        live_context[name] = builtin\n",
+        "QUIET", None, "loop over .items() instead of indexing the table",
+    ),
+    Variant(
+        "quiet-dbt-builtins-setdefault", JINJA, _DBT_OLD,
+        "                for name in DBT_BUILTINS:\n"
+        "                    # Only apply if it hasn't already been set at this stage.\n"
+        "                    live_context.setdefault(name, DBT_BUILTINS[name])\n",
+        "QUIET", None, "membership test + store spelled as setdefault (never overwrites)",
+    ),
+    Variant(
+        "quiet-slice-file-env-through-local-and-chained", JINJA,
+        "        analyzer = self._get_jinja_analyzer(raw_str, self._get_jinja_env())\n        tracer = analyzer.analyze(render_func)\n",
+        "        slicing_env = self._get_jinja_env()\n        tracer = self._get_jinja_analyzer(raw_str, slicing_env).analyze(render_func)\n",
+        "QUIET", None, "environment through a local, analyzer call chained",
+    ),
+    Variant(
+        "quiet-render-closure-result-through-local", JINJA,
+        "            return template.render()\n",
+        "            rendered_sql = template.render()\n            return rendered_sql\n",
+        "QUIET", None, "rendered text through a local",
+    ),
+    Variant(
+        "quiet-process-slicing-result-indexed", JINJA,
+        "            raw_sliced, sliced_file, out_str = self.slice_file(\n                in_str,\n                render_func=render_func,\n                config=config,\n            )\n",
+        "            sliced = self.slice_file(\n                in_str,\n                render_func=render_func,\n                config=config,\n            )\n            raw_sliced, sliced_file, out_str = sliced[0], sliced[1], sliced[2]\n",
+        "QUIET", None, "result triple indexed instead of unpacked",
+    ),
+    Variant(
+        "quiet-trace-record-by-keyword", TRACER,
+        "        return JinjaTrace(templated_str, self.raw_sliced, self.sliced_file)\n",
+        "        record = JinjaTrace(\n            templated_str=templated_str,\n            raw_sliced=self.raw_sliced,\n            sliced_file=self.sliced_file,\n        )\n        return record\n",
+        "QUIET", None, "trace record by keyword, through a local",
+    ),
+    # breaking twins in the spellings the QUIET sweep taught the rules to read
+    Variant(
+        "undefined-stand-in-through-local-without-membership-test", JINJA, _UNDEF_OLD,
+        "            if live_context.get(val) is None:\n"
+        "                stand_in = (\n"
+        "                    DummyUndefined.create(val)\n"
+        "                    if ignore_templating\n"
+        "                    else UndefinedRecorder(val, undefined_variables)\n"
+        "                )\n"
+        "                live_context[val] = stand_in\n",
+        "R08d", "_init_undefined_tracking", "stand-in through a local; a variable defined as None is replaced",
+    ),
+    Variant(
+        "dbt-builtins-items-loop-overwrites", JINJA, _DBT_OLD,
+        "                for name, builtin in DBT_BUILTINS.items():\n"
+        "                    live_context[name] = builtin\n",
+        "R08d", "_get_env_context", ".items() loop without the membership test",
+    ),
     Variant(
         "dbt-builtins-merged-over-the-context", JINJA,
         "                for name in DBT_BUILTINS:\n                    # Only apply if it hasn't already been set at this stage.\n                    if name not in live_context:\n                        live_context[name] = DBT_BUILTINS[name]\n",
